@@ -124,6 +124,7 @@ type c16X struct {
 	Yank  int   `json:"yank"`  // token index of the yank
 	Vi    bool  `json:"vi"`
 	Yank2 int   `json:"yank2,omitempty"` // token index of a second yank of the same kill, after edits that are not kills
+	Warm  int   `json:"warm,omitempty"`  // tokens of an earlier Readline call on the same shell, left without accepting a line
 }
 
 func genC16(g *Gen, tier string, idx int) *wire.Scenario {
@@ -151,6 +152,15 @@ func genC16(g *Gen, tier string, idx int) *wire.Scenario {
 	env.Binds = g.Cat.Extra
 	script, _ := g.setupBuffer(&env, mode, g.P(25))
 	x := c16X{Vi: vi}
+	if vi && g.P(20) {
+		// an earlier call on the same shell in which a register was named and nothing done with it, left by an
+		// interrupt: what a call leaves pending does not reach the next one
+		warm := []wire.Token{tok("\x1b", "warm:vi-movement-mode"), tok("\"", "warm:vi-set-buffer"), tok(Pick(g, []string{"a", "b", "1"}), "warm:register")}
+		warm = append(warm, tok("\x03", "warm:interrupt"))
+		x.Warm = len(warm)
+		// (the next call starts in the keymap the interrupted one was in: command mode; its buffer is a recalled entry)
+		script = append(warm, tok("k", "history-walk"), tok("0", "vi-move"))
+	}
 	km := "emacs"
 	// the kills and the yank happen while a keyboard macro is being recorded
 	recording := g.P(15)
@@ -158,7 +168,9 @@ func genC16(g *Gen, tier string, idx int) *wire.Scenario {
 		script = append(script, tok(g.Cat.ShortSeqFor(km, "start-kbd-macro"), "start-kbd-macro"))
 	}
 	if vi {
-		script = append(script, tok("\x1b", "vi-movement-mode"))
+		if x.Warm == 0 {
+			script = append(script, tok("\x1b", "vi-movement-mode"))
+		}
 		km = "vi-command"
 		if recording {
 			script = append(script, tok(g.Cat.ShortSeqFor(km, "macro-toggle-record"), "macro-toggle-record"), tok("a", "macro-register"))
@@ -249,10 +261,21 @@ func execC16(x *Ctx, sc *wire.Scenario) *wire.Result {
 	res := okResult(sc)
 	var xx c16X
 	jsonInto(sc.X, &xx)
-	out := runSession(x, sc, sc.Plan, sim.Hooks{}, false)
+	hooks := sim.Hooks{}
+	if xx.Warm > 0 {
+		hooks.Body = func(s *sim.Session, sh *readlineShell) {
+			s.Readline(sh)
+			s.Readline(sh)
+		}
+	}
+	out := runSession(x, sc, sc.Plan, hooks, false)
 	absorb(res, out)
 	if out.End == "PANIC" || out.End == "DEADLOCK" || out.End == "LIVELOCK" {
 		res.Counters["skipped:crash"]++
+		return res
+	}
+	if xx.Warm > 0 && (len(out.Returns) == 0 || out.Returns[0].Err == "") {
+		res.Counters["skipped:warm_up_call_not_left_by_an_error"]++
 		return res
 	}
 	lastR := ""
